@@ -92,38 +92,39 @@ type ScenarioProg struct {
 }
 
 type H1Cfg struct {
-	Driver         string            `json:"driver"` // api | cli
-	Mode           string            `json:"mode"`
-	Flags          map[string]string `json:"flags,omitempty"`
-	Concurrency    int               `json:"concurrency"`
-	MaxDurationNs  int64             `json:"max_duration"`
-	MaxIterations  uint64            `json:"max_iterations,omitempty"`
-	WaitTimeoutNs  int64             `json:"wait_timeout"`
-	IgnoreDropped  bool              `json:"ignore_dropped,omitempty"`
-	MaxFailures    uint64            `json:"max_failures,omitempty"`
-	MaxFailRate    int               `json:"max_failures_rate,omitempty"`
-	Verbose        bool              `json:"verbose,omitempty"`
-	Interactive    bool              `json:"interactive,omitempty"`
-	Metrics        bool              `json:"metrics,omitempty"`
-	StaticLabels   [][2]string       `json:"static_labels,omitempty"`
-	Runs           int               `json:"runs,omitempty"`          // consecutive runs on one metrics instance
-	SameScenario   bool              `json:"same_scenario,omitempty"` // ... all of the same scenario name
-	Run2Plain      bool              `json:"run2_plain,omitempty"`    // runs after the first leave every limit at its default (flags omitted)
-	C01LateCancel  bool              `json:"c01_late_cancel,omitempty"`
-	LateHelper     bool              `json:"late_helper_profile,omitempty"`
-	Flags1         map[string]string `json:"flags_first_run,omitempty"` // trigger flags of the first run only (later runs use Flags): nothing of them may survive
-	FilePathKind   string            `json:"file_path_kind,omitempty"`  // file mode: "dir" = the path names a directory, "missing" = nothing there
-	MemProfile     bool              `json:"memprofile,omitempty"`      // driver f1: pass --memprofile
-	C03Overload    bool              `json:"c03_overload,omitempty"`
-	Prog           ScenarioProg      `json:"prog"`
-	CancelAtNs     int64             `json:"cancel_at,omitempty"`   // after Do was called; <0 = cancel before Do
-	CancelAtStep   uint64            `json:"cancel_step,omitempty"` // scheduler step (asynchronous signal)
-	CancelAtSite   string            `json:"cancel_site,omitempty"` // … or CancelSitePlus steps after the nth arrival of any task at such a yield site
-	CancelSiteNth  int               `json:"cancel_site_nth,omitempty"`
-	CancelSitePlus uint64            `json:"cancel_site_plus,omitempty"`
-	StartOffsetNs  int64             `json:"start_offset,omitempty"`
-	FileYAML       string            `json:"file_yaml,omitempty"`
-	SlowOutputNs   int64             `json:"slow_output,omitempty"` // every progress line takes this long to write
+	Driver            string            `json:"driver"` // api | cli
+	Mode              string            `json:"mode"`
+	Flags             map[string]string `json:"flags,omitempty"`
+	Concurrency       int               `json:"concurrency"`
+	MaxDurationNs     int64             `json:"max_duration"`
+	MaxIterations     uint64            `json:"max_iterations,omitempty"`
+	WaitTimeoutNs     int64             `json:"wait_timeout"`
+	IgnoreDropped     bool              `json:"ignore_dropped,omitempty"`
+	MaxFailures       uint64            `json:"max_failures,omitempty"`
+	MaxFailRate       int               `json:"max_failures_rate,omitempty"`
+	Verbose           bool              `json:"verbose,omitempty"`
+	Interactive       bool              `json:"interactive,omitempty"`
+	Metrics           bool              `json:"metrics,omitempty"`
+	StaticLabels      [][2]string       `json:"static_labels,omitempty"`
+	Runs              int               `json:"runs,omitempty"`                // consecutive runs on one metrics instance
+	SameScenario      bool              `json:"same_scenario,omitempty"`       // ... all of the same scenario name
+	Run2Plain         bool              `json:"run2_plain,omitempty"`          // runs after the first leave every limit at its default (flags omitted)
+	SignalBetweenRuns bool              `json:"signal_between_runs,omitempty"` // f1 driver: SIGINT arrives while no run is active
+	C01LateCancel     bool              `json:"c01_late_cancel,omitempty"`
+	LateHelper        bool              `json:"late_helper_profile,omitempty"`
+	Flags1            map[string]string `json:"flags_first_run,omitempty"` // trigger flags of the first run only (later runs use Flags): nothing of them may survive
+	FilePathKind      string            `json:"file_path_kind,omitempty"`  // file mode: "dir" = the path names a directory, "missing" = nothing there
+	MemProfile        bool              `json:"memprofile,omitempty"`      // driver f1: pass --memprofile
+	C03Overload       bool              `json:"c03_overload,omitempty"`
+	Prog              ScenarioProg      `json:"prog"`
+	CancelAtNs        int64             `json:"cancel_at,omitempty"`   // after Do was called; <0 = cancel before Do
+	CancelAtStep      uint64            `json:"cancel_step,omitempty"` // scheduler step (asynchronous signal)
+	CancelAtSite      string            `json:"cancel_site,omitempty"` // … or CancelSitePlus steps after the nth arrival of any task at such a yield site
+	CancelSiteNth     int               `json:"cancel_site_nth,omitempty"`
+	CancelSitePlus    uint64            `json:"cancel_site_plus,omitempty"`
+	StartOffsetNs     int64             `json:"start_offset,omitempty"`
+	FileYAML          string            `json:"file_yaml,omitempty"`
+	SlowOutputNs      int64             `json:"slow_output,omitempty"` // every progress line takes this long to write
 	// expectations computed by the generator (not by reading f1): tick interval / per-tick rate when constant & undistributed
 	TickNs   int64 `json:"tick,omitempty"`
 	TickRate int   `json:"tick_rate,omitempty"`
@@ -654,10 +655,11 @@ func (h h1) Gen(prop, tier string, r *simrt.Rng) (any, simrt.Config) {
 		c.Interactive = false
 	}
 	if c.Driver == "f1" {
-		c.CancelAtNs, c.CancelAtStep, c.CancelAtSite, c.Runs = 0, 0, "", 1
-		if prop == "C08" && r.Intn(3) == 0 {
+		c.Runs = 1 // (an interrupt is delivered as SIGINT to whatever the entry point registered)
+		if (prop == "C08" || prop == "C05") && r.Intn(3) == 0 {
 			// one F1 instance executed twice, the second time without the limits of the first
 			c.Runs, c.SameScenario, c.Run2Plain = 2, r.Intn(2) == 0, true
+			c.SignalBetweenRuns = r.Intn(2) == 0
 		}
 		c.Verbose, c.Interactive = true, false
 		if prop == "C16" {
